@@ -140,9 +140,9 @@ Qed.
 
 Lemma is_child_spec : forall p q, is_child p q = true <-> exists k, q = p ++ [k].
 Proof.
-  intros p q. unfold is_child, child_name. destruct (strip_prefix p q) as [[|k [|k2 r]]|] eqn:E.
+  intros p q. unfold is_child, child_name. destruct (strip_prefix p q) as [[|k0 [|k2 r]]|] eqn:E.
   - split; [discriminate|]. intros [k H]. apply strip_prefix_spec in H. rewrite H in E. discriminate.
-  - split; [|reflexivity]. intros _. exists k. apply strip_prefix_spec. exact E.
+  - split; [|reflexivity]. intros _. exists k0. apply strip_prefix_spec. exact E.
   - split; [discriminate|]. intros [k H]. apply strip_prefix_spec in H. rewrite H in E. discriminate.
   - split; [discriminate|]. intros [k H]. apply strip_prefix_spec in H. rewrite H in E. discriminate.
 Qed.
@@ -192,8 +192,17 @@ Section RemoveRec.
 Variable leave : server -> path -> server.
 Hypothesis leave_tree : forall sv q, sv_tree (leave sv q) = remove_node (sv_tree sv) q.
 
-(* what a removal may do to the tree: drop nodes, among them every node at the path it was asked to remove *)
-Definition shrinks_to (t t' : tree) (g : node -> bool) : Prop := t' = filter g t.
+Lemma remove_rec_S : forall f sv p,
+  remove_rec leave (S f) sv p = match drain_kids leave f sv p with None => None | Some sv1 => Some (leave sv1 p) end.
+Proof. reflexivity. Qed.
+
+Lemma drain_kids_S : forall f sv p,
+  drain_kids leave (S f) sv p =
+  match children (sv_tree sv) p with
+  | [] => Some sv
+  | c :: _ => match remove_rec leave f sv (n_path c) with None => None | Some sv1 => drain_kids leave f sv1 p end
+  end.
+Proof. reflexivity. Qed.
 
 Lemma remove_rec_fuel_aux : forall d,
   (forall sv p fuel, desc (sv_tree sv) p <= d -> 2 * d + 1 <= fuel ->
@@ -205,7 +214,7 @@ Proof.
   induction d as [|d [IHD IHR]].
   - assert (HD : forall sv p fuel, desc (sv_tree sv) p <= 0 -> 2 * 0 + 1 <= fuel ->
               exists sv' g, drain_kids leave fuel sv p = Some sv' /\ sv_tree sv' = filter g (sv_tree sv)).
-    { intros sv p fuel Hd Hf. destruct fuel as [|f]; [lia|]. cbn [drain_kids].
+    { intros sv p fuel Hd Hf. destruct fuel as [|f]; [lia|]. rewrite drain_kids_S.
       destruct (children (sv_tree sv) p) as [|c cs] eqn:Hc.
       - exists sv, (fun _ => true). split; [reflexivity|]. rewrite filter_true. reflexivity.
       - exfalso. assert (Hin : In c (children (sv_tree sv) p)) by (rewrite Hc; left; reflexivity).
@@ -218,14 +227,14 @@ Proof.
           destruct (filter (fun n => under p (n_path n)) (sv_tree sv)); [contradiction|simpl; lia]. }
         lia. }
     split; [exact HD|].
-    intros sv p fuel Hd Hf. destruct fuel as [|f]; [lia|]. cbn [remove_rec].
+    intros sv p fuel Hd Hf. destruct fuel as [|f]; [lia|]. rewrite remove_rec_S.
     destruct (HD sv p f Hd ltac:(lia)) as [sv1 [g1 [H1 Ht1]]]. rewrite H1.
     exists (leave sv1 p), (fun n => g1 n && negb (path_eqb (n_path n) p)). split; [reflexivity|]. split.
     + rewrite leave_tree, Ht1. unfold remove_node. apply filter_filter.
     + intros n Hn. rewrite (proj2 (path_eqb_eq _ _) Hn). apply andb_false_r.
   - assert (HD : forall sv p fuel, desc (sv_tree sv) p <= S d -> 2 * S d + 1 <= fuel ->
               exists sv' g, drain_kids leave fuel sv p = Some sv' /\ sv_tree sv' = filter g (sv_tree sv)).
-    { intros sv p fuel Hd Hf. destruct fuel as [|f]; [lia|]. cbn [drain_kids].
+    { intros sv p fuel Hd Hf. destruct fuel as [|f]; [lia|]. rewrite drain_kids_S.
       destruct (children (sv_tree sv) p) as [|c cs] eqn:Hc.
       - exists sv, (fun _ => true). split; [reflexivity|]. rewrite filter_true. reflexivity.
       - assert (Hin : In c (children (sv_tree sv) p)) by (rewrite Hc; left; reflexivity).
@@ -250,11 +259,11 @@ Proof.
           pose proof (filter_length_lt node (fun x => g1 x && under p (n_path x)) (fun n => under p (n_path n)) (sv_tree sv) c) as Hlt.
           assert (Himp : forall x, g1 x && under p (n_path x) = true -> under p (n_path x) = true).
           { intros x Hx. apply andb_true_iff in Hx. apply Hx. }
-          specialize (Hlt Himp Hin Hu). rewrite (Hg1 c eq_refl) in Hlt. specialize (Hlt eq_refl). lia. }
+          specialize (Hlt Himp Hin Hu). cbv beta in Hlt. rewrite (Hg1 c eq_refl) in Hlt. specialize (Hlt eq_refl). lia. }
         destruct (IHD sv1 p f Hd1 ltac:(lia)) as [sv2 [g2 [H2 Ht2]]].
         exists sv2, (fun x => g1 x && g2 x). split; [exact H2|]. rewrite Ht2, Ht1. apply filter_filter. }
     split; [exact HD|].
-    intros sv p fuel Hd Hf. destruct fuel as [|f]; [lia|]. cbn [remove_rec].
+    intros sv p fuel Hd Hf. destruct fuel as [|f]; [lia|]. rewrite remove_rec_S.
     destruct (HD sv p f Hd ltac:(lia)) as [sv1 [g1 [H1 Ht1]]]. rewrite H1.
     exists (leave sv1 p), (fun n => g1 n && negb (path_eqb (n_path n) p)). split; [reflexivity|]. split.
     + rewrite leave_tree, Ht1. unfold remove_node. apply filter_filter.
@@ -268,10 +277,81 @@ Lemma remove_rec_fuel : forall sv p fuel,
                 (forall n, n_path n = p -> g n = false).
 Proof.
   intros sv p fuel Hf.
-  assert (Hd : desc (sv_tree sv) p <= length (sv_tree sv)) by (unfold desc; apply filter_length).
+  assert (Hd : desc (sv_tree sv) p <= length (sv_tree sv)) by (unfold desc; pose proof (filter_length_le node (fun n => under p (n_path n)) (fun _ => true) (sv_tree sv) (fun _ _ => eq_refl)) as Hle; rewrite filter_true in Hle; exact Hle).
   destruct (remove_rec_fuel_aux (length (sv_tree sv))) as [_ HR]. apply HR; assumption.
 Qed.
 
 End RemoveRec.
+
+(* the notifications of a removal do not touch the tree *)
+Lemma tree_push_all : forall sv, sv_tree (push_all sv) = sv_tree sv.
+Proof. intros sv. unfold push_all. destruct (sv_dirty sv); reflexivity. Qed.
+
+Lemma tree_node_changed_aux : forall sv s p d removed, sv_tree (node_changed_aux sv s p d removed) = sv_tree sv.
+Proof.
+  intros sv s p d removed. unfold node_changed_aux.
+  destruct (get_session sv s) as [ss|]; [|reflexivity].
+  cbv zeta.
+  match goal with |- context [get_session ?sv1 s] =>
+    assert (H1 : sv_tree sv1 = sv_tree sv);
+    [ destruct removed; [destruct (di_has_set (pending_or_new ss) p)|]; cbn [set_dirty upd_session sv_tree];
+      rewrite ?tree_push_all; reflexivity
+    | destruct (get_session sv1 s) as [ss1|]; [|exact H1];
+      destruct (s_pending ss1) as [pd|]; [|exact H1];
+      destruct (N.leb (s_max ss1) (di_num_names pd)); [rewrite tree_push_all|]; exact H1 ]
+  end.
+Qed.
+
+Lemma tree_node_changed : forall sv s p d old removed, sv_tree (node_changed sv s p d old removed) = sv_tree sv.
+Proof.
+  intros sv s p d old removed. unfold node_changed.
+  destruct (get_session sv s) as [ss|]; [|reflexivity].
+  repeat first [ reflexivity | apply tree_node_changed_aux | outer_if | destruct old ].
+Qed.
+
+Lemma tree_notify_changed : forall sv by_ p d old removed, sv_tree (notify_changed sv by_ p d old removed) = sv_tree sv.
+Proof.
+  intros sv by_ p d old removed. unfold notify_changed.
+  destruct (find_node (sv_tree sv) p) as [n|]; [|reflexivity].
+  generalize (n_subs n). intros l. revert sv. induction l as [|kc l IH]; intros sv; cbn [fold_left].
+  - reflexivity.
+  - rewrite IH. outer_if; [reflexivity|]. apply tree_node_changed.
+Qed.
+
+Lemma remove_node_absent : forall t q, find_node t q = None -> remove_node t q = t.
+Proof.
+  intros t q. unfold remove_node. induction t as [|n t IH]; cbn [find_node filter]; intros H.
+  - reflexivity.
+  - destruct (path_eqb (n_path n) q); [discriminate|]. cbn [negb]. rewrite IH by exact H. reflexivity.
+Qed.
+
+Lemma leave_node_tree : forall by_ notify sv q,
+  sv_tree (leave_node by_ notify sv q) = remove_node (sv_tree sv) q.
+Proof.
+  intros by_ notify sv q. unfold leave_node.
+  destruct (find_node (sv_tree sv) q) as [n|] eqn:Hf.
+  - cbn [set_tree sv_tree]. destruct notify; [rewrite tree_notify_changed|]; reflexivity.
+  - symmetry. apply remove_node_absent. exact Hf.
+Qed.
+
+(* DataNode::RemoveChild(key, notify, recurse) as Server.v notifies and unlinks: returns within fuel 2*|tree|+2, the
+   node is gone afterwards and no node was added *)
+Lemma remove_child_fuel : forall by_ notify sv p fuel,
+  2 * length (sv_tree sv) + 2 <= fuel ->
+  exists sv', remove_rec (leave_node by_ notify) fuel sv p = Some sv' /\
+              find_node (sv_tree sv') p = None /\ length (sv_tree sv') <= length (sv_tree sv).
+Proof.
+  intros by_ notify sv p fuel Hf.
+  destruct (remove_rec_fuel (leave_node by_ notify) (leave_node_tree by_ notify) sv p fuel Hf) as [sv' [g [H1 [Ht Hg]]]].
+  exists sv'. split; [exact H1|]. split.
+  - rewrite Ht. clear H1 Ht Hf. induction (sv_tree sv) as [|n t IH]; cbn [filter find_node].
+    + reflexivity.
+    + destruct (g n) eqn:Egn; cbn [find_node].
+      * destruct (path_eqb (n_path n) p) eqn:E; [|exact IH].
+        apply path_eqb_eq in E. rewrite (Hg n E) in Egn. discriminate.
+      * exact IH.
+  - rewrite Ht. pose proof (filter_length_le node g (fun _ => true) (sv_tree sv) (fun _ _ => eq_refl)) as Hle.
+    rewrite filter_true in Hle. exact Hle.
+Qed.
 
 End Loops.
